@@ -104,9 +104,12 @@ def build(spec):
 
     def equip(l, ds):
         if automatic:
-            Sensor(f"S{l.name}", l, ict_node=ict_nodes.get(node_of.get(f"S{l.name}")), fail_rate_per_year=0)
+            nodev = c.get("nodev", [])       # devices that are not installed at all (line without sensor, plain disconnector)
+            if f"S{l.name}" not in nodev:
+                Sensor(f"S{l.name}", l, ict_node=ict_nodes.get(node_of.get(f"S{l.name}")), fail_rate_per_year=0)
             for d in ds:
-                IntelligentSwitch(f"I{d.name}", d, ict_node=ict_nodes.get(node_of.get(f"I{d.name}")), fail_rate_per_year=0)
+                if f"I{d.name}" not in nodev:
+                    IntelligentSwitch(f"I{d.name}", d, ict_node=ict_nodes.get(node_of.get(f"I{d.name}")), fail_rate_per_year=0)
 
     for f, fd in enumerate(spec["feeders"]):
         n = len(fd["parent"])
@@ -190,7 +193,8 @@ def build(spec):
         for i, b in enumerate(fb[f]):
             ld = N(fd.get("load", ["1/20"] * len(fb[f]))[i])
             arr = np.array([ld] * nprof, dtype=object) if exact else np.ones(nprof) * ld
-            b.add_load_data(pload_data=arr, qload_data=arr / 2 if not exact else np.array([ld / 2] * nprof, dtype=object),
+            ql = N(fd["qload"][i]) if fd.get("qload") else ld / 2          # reactive demand: given per bus, else half the active one
+            b.add_load_data(pload_data=arr, qload_data=(np.ones(nprof) * ql if not exact else np.array([ql] * nprof, dtype=object)),
                             cost_function=CostFunction(A=N(str(fd.get("cost", [1] * len(fb[f]))[i])), B=N(str(fd.get("costB", 1)))))
     for P, pr in prods:
         v = N(pr["p"]); w = N(pr.get("q", "0"))
